@@ -222,7 +222,8 @@ class G:
             choices = [lambda: "${last-saved#%s} = %s" % (self.pick(nm), L)]
         if self.P.get("p_pulldata", 0) and self.p("p_pulldata"):
             f = self.pick(["fruits", "pd2"])
-            choices = [lambda: f"pulldata('{f}', 'c', 'k', {r()}) = {L}"]
+            sp = self.pick(["", "", " ", "  "])      # XPath allows white space between a function name and its parenthesis
+            choices = [lambda: f"pulldata{sp}('{f}', 'c', 'k', {r()}) = {L}"]
         if self.P.get("p_instance_expr", 0) and self.lists and self.p("p_instance_expr"):
             ln = self.pick(self.lists)["name"]
             choices = [lambda: f"instance('{ln}')/root/item[name = {r()}]/label = {L}"]
@@ -572,6 +573,10 @@ class G:
             if P("p_group_media", 0.0) and any(k.split("::")[0] == "label" for k in c):
                 mcol = self.pick(["image", "audio", "video"])
                 self.put_translated(c, mcol, lambda: f"g{self.integer(1, 99)}.{self.pick(['jpg', 'wav', 'mp4'])}")
+                if kind == "g" and P("_", 0.3):
+                    # media alone: the group has no label text at all
+                    for k in [k for k in c if k.split("::")[0] == "label"]:
+                        del c[k]
             if kind == "g" and P("p_table_list", 0.05):
                 c["appearance"] = "table-list"
                 for k in [k for k in c if k.split("::")[0] in ("image", "audio", "video")]:
